@@ -1,0 +1,64 @@
+package functions
+
+import "strings"
+
+// NormalizeFunctionNames rewrites a call of a registered function whose name is written in mixed case (Abs(x),
+// Upper(s)) to the lower-case spelling. Function names are case-insensitive in SQL and the registry looks them up
+// case-insensitively, but expr-lang only knows the all-lower and all-upper spellings it was given. Text inside
+// quotes or backticks, member calls (x.Name(...)) and names that are not registered functions are left alone.
+func NormalizeFunctionNames(expression string) string {
+	var sb *strings.Builder
+	last := 0
+	var quote byte
+	n := len(expression)
+	for i := 0; i < n; i++ {
+		c := expression[i]
+		if quote != 0 {
+			if c == quote {
+				quote = 0
+			}
+			continue
+		}
+		if c == '\'' || c == '"' || c == '`' {
+			quote = c
+			continue
+		}
+		if !(c == '_' || (c >= 'a' && c <= 'z') || (c >= 'A' && c <= 'Z')) {
+			continue
+		}
+		start := i
+		for i < n && (expression[i] == '_' || (expression[i] >= 'a' && expression[i] <= 'z') || (expression[i] >= 'A' && expression[i] <= 'Z') || (expression[i] >= '0' && expression[i] <= '9')) {
+			i++
+		}
+		name := expression[start:i]
+		j := i
+		for j < n && (expression[j] == ' ' || expression[j] == '\t') {
+			j++
+		}
+		i-- // the loop increments
+		if j >= n || expression[j] != '(' {
+			continue
+		}
+		if start > 0 && expression[start-1] == '.' {
+			continue
+		}
+		lower := strings.ToLower(name)
+		if name == lower || name == strings.ToUpper(name) {
+			continue
+		}
+		if _, ok := Get(lower); !ok {
+			continue
+		}
+		if sb == nil {
+			sb = &strings.Builder{}
+		}
+		sb.WriteString(expression[last:start])
+		sb.WriteString(lower)
+		last = start + len(name)
+	}
+	if sb == nil {
+		return expression
+	}
+	sb.WriteString(expression[last:])
+	return sb.String()
+}
